@@ -436,4 +436,116 @@ theorem doLoads_post (cfg : Cfg) (fs : FS) (root : APath) (hc : CleanImports cfg
             rw [hreg1'']
             exact List.Perm.append hperm1 hperm2
 
+theorem parseText_some (text : String) (f : File) (h : parseText text = some f) :
+    ∃ toks, lex text = some toks ∧ parseFile toks = some f := by
+  unfold parseText at h
+  cases hl : lex text with
+  | none => rw [hl] at h; cases h
+  | some toks => rw [hl] at h; exact ⟨toks, rfl, h⟩
+
+theorem loadsOf_eq (fs : FS) (p : APath) (text : String) (f : File)
+    (hf : fs.get p = some (.idl text)) (hp : parseText text = some f) : loadsOf fs p = f.loads := by
+  simp [loadsOf, hf, hp]
+
+/-- **The simulation.** Under the hypotheses on the import graph, a call of `parseOne` that starts in a state
+    matching the search (`visited` = stack + imported, registry = start registry + the finished files' declarations,
+    bindings only for finished files) and whose finished files at the end are `Good` (no duplicate name, distinct file
+    names, distinct reference positions) returns normally — unless it runs out of fuel — with `Post`. -/
+theorem parseOne_post (cfg : Cfg) (fs : FS) (root : APath) (hc : CleanImports cfg fs root) (R0 : Registry) (n : Nat) :
+    ∀ stack file spelled st acc, Reachable cfg fs root (file, spelled) → StackOk cfg fs root stack (file, spelled) →
+      SelfOk fs spelled file → Visited acc.1 (stack ++ [file]) st.imported → st.reg = R0 ++ acc.2.flatMap (fileDefs fs) →
+      ResInv st.resolved acc.2 → Good cfg fs R0 (finishOrder cfg fs n file spelled acc).2 →
+      Post cfg fs st acc (finishOrder cfg fs n file spelled acc) (stack ++ [file]) (parseOne cfg fs n stack file spelled st) [] := by
+  induction n with
+  | zero => intro stack file spelled st acc _ _ _ _ _ _ _; exact Or.inl (by simp [parseOne])
+  | succ n ih =>
+    intro stack file spelled st acc hreach hstack hself hv hr hres hgood
+    obtain ⟨text, f, hfile, hpt⟩ := hc.parsable _ hreach
+    have hfile : fs.get file = some (.idl text) := hfile
+    obtain ⟨toks, hlex, hparse⟩ := parseText_some text f hpt
+    obtain ⟨loads, contents⟩ := f
+    have hloads : loadsOf fs file = loads := loadsOf_eq fs file text _ hfile hpt
+    have hfo : finishOrder cfg fs (n + 1) file spelled acc
+        = ((loads.foldl (finishStep cfg fs (finishOrder cfg fs n) spelled) acc).1,
+           (loads.foldl (finishStep cfg fs (finishOrder cfg fs n) spelled) acc).2 ++ [file]) := by
+      rw [finishOrder_succ]; simp only [hfile, hpt]
+    rw [hfo] at hgood ⊢
+    have hpo : parseOne cfg fs (n + 1) stack file spelled st
+        = match doLoads cfg fs (parseOne cfg fs n) (stack ++ [file]) file spelled loads {} st with
+          | .error a => .error a
+          | .ok (res, st) => finishFile cfg file contents res st := by
+      simp only [parseOne, hfile, hlex, hparse]
+      rfl
+    rw [hpo]
+    have h1 := doLoads_post cfg fs root hc n R0 ih stack file spelled hreach hstack hself loads
+      (fun l hl => by rw [hloads]; exact hl) {} st acc hv hr hres hgood.prefix
+    rcases h1 with h1 | ⟨res1, st1, new1, errs1, hok, hout1, hv1, hreg1, hres1, herr1, hperm1⟩
+    · rw [h1]; exact Or.inl rfl
+    · rw [hok]
+      simp only
+      obtain ⟨hkeys, hnames, hrefs⟩ := hgood
+      -- the registry the file is finished in
+      have hreg1' : st1.reg = R0 ++ (loads.foldl (finishStep cfg fs (finishOrder cfg fs n) spelled) acc).2.flatMap (fileDefs fs) := by
+        rw [hreg1, hout1]; simp only [hr, List.flatMap_append, List.append_assoc]
+      have hfd : fileDefs fs file = declDefs contents := fileDefs_eq fs file text _ hfile hpt
+      have hkeys' : ((st1.reg ++ declDefs contents).map (·.key)).Nodup := by
+        rw [hreg1', ← hfd]
+        simpa only [List.flatMap_append, List.flatMap_cons, List.flatMap_nil, List.append_nil, List.append_assoc] using hkeys
+      have hdk : (declDefs contents).map (·.key) = (declsOfContents [] contents).map (fun x => declKey x.1 x.2) := by
+        simp [declDefs, List.map_map, Function.comp_def]
+      rw [List.map_append, hdk] at hkeys'
+      obtain ⟨_, hk2, hk3⟩ := List.nodup_append.mp hkeys'
+      obtain ⟨reg, hreg⟩ := (file_registers_iff
+        { file := showPath file, keys := cfg.keys, defaultDeriving := cfg.defaultDeriving } st1.reg contents).mpr
+        ⟨hk2, fun x hx hm => hk3 _ hm _ (List.mem_map.mpr ⟨x, hx, rfl⟩) rfl⟩
+      -- reference positions, freshness
+      have hpf : progFile fs file = { file := showPath file, contents := contents } := progFile_eq fs file text _ hfile hpt
+      have hnd := hrefs file (by simp)
+      rw [hpf] at hnd
+      have hnotin : ∀ q ∈ (loads.foldl (finishStep cfg fs (finishOrder cfg fs n) spelled) acc).2, showPath file ≠ showPath q := by
+        intro q hq heq
+        rw [List.map_append] at hnames
+        exact (List.nodup_append.mp hnames).2.2 _ (List.mem_map.mpr ⟨q, hq, rfl⟩) _ (by simp) heq.symm
+      have hfresh : ∀ r ∈ (walkContents { file := showPath file, keys := cfg.keys, defaultDeriving := cfg.defaultDeriving } [] contents).refs,
+          st1.resolved.get r.file r.pos = none := by
+        intro r hrm
+        have hrf : r.file = showPath file :=
+          refsIn_walkContents { file := showPath file, keys := cfg.keys, defaultDeriving := cfg.defaultDeriving } [] contents r hrm
+        cases hg : st1.resolved.get r.file r.pos with
+        | none => rfl
+        | some d =>
+          exfalso
+          obtain ⟨q, hq, hfq⟩ := hres1 r.file r.pos (by rw [hg]; simp)
+          exact hnotin q hq (hrf ▸ hfq)
+      obtain ⟨m, hfin, hbind, hother⟩ := finishFile_out_gen cfg file contents res1 st1 reg hreg hnd hfresh
+      rw [hfin]
+      have hregeq : reg = st1.reg ++ declDefs contents := by
+        rw [registerAll_ok_eq _ _ _ hreg, defs_file]
+      refine Or.inr ⟨_, _, new1 ++ [file], errs1 ++ outOf m reg
+        (walkContents { file := showPath file, keys := cfg.keys, defaultDeriving := cfg.defaultDeriving } [] contents),
+        rfl, ?_, hv1, ?_, ?_, ?_, ?_⟩
+      · show _ ++ [file] = _
+        rw [hout1, List.append_assoc]
+      · show reg = _
+        rw [hregeq, hreg1, ← hfd]
+        simp only [List.flatMap_append, List.flatMap_cons, List.flatMap_nil, List.append_nil, List.append_assoc]
+      · intro fl p hne
+        show ∃ q ∈ _ ++ [file], fl = showPath q
+        by_cases hmem : (fl, p) ∈ (walkContents { file := showPath file, keys := cfg.keys, defaultDeriving := cfg.defaultDeriving } []
+            contents).refs.map (fun r => (r.file, r.pos))
+        · obtain ⟨r, hrm, hreq⟩ := List.mem_map.mp hmem
+          have hrf : r.file = showPath file :=
+            refsIn_walkContents { file := showPath file, keys := cfg.keys, defaultDeriving := cfg.defaultDeriving } [] contents r hrm
+          refine ⟨file, by simp, ?_⟩
+          rw [← hrf]; exact (Prod.mk.inj hreq).1.symm
+        · have hne' : st1.resolved.get fl p ≠ none := by rw [← hother fl p hmem]; exact hne
+          obtain ⟨q, hq, hfq⟩ := hres1 fl p hne'
+          exact ⟨q, List.mem_append_left _ hq, hfq⟩
+      · show res1.errors ++ _ = _
+        rw [herr1]; simp only [List.nil_append, List.append_assoc]
+      · rw [List.map_append, specFrom_append, progRegistry_files, ← hreg1]
+        refine List.Perm.append hperm1 ?_
+        simp only [List.map_cons, List.map_nil, specFrom, List.append_nil, hpf]
+        exact outOf_perm_violations cfg (showPath file) contents st1.reg reg m hreg hbind
+
 end Pydjinni.Front
